@@ -3,10 +3,16 @@
    both byte orders, any previous message content: what emplace_atomic_value
    writes, extract_atomic_value reads back (C01_atomic_roundtrip), and for each
    base type the raw value determines the internal value (C01_*_values).
-   NOT PROVED (correspondence + oracle only): the composite statement
-   C01_roundtrip over whole parameter trees (see DESIGN.md, "partial"). *)
+   PROVED AT MESSAGE LEVEL (C01_flat_message_roundtrip): for every message which is a
+   sequence of VALUE parameters with implicit positions over STANDARD-LENGTH types
+   (any base type / encoding / byte order / bit length, no bit mask, IDENTICAL compu
+   method), any number of parameters: Request.encode succeeds without overlap warning
+   and Request.decode of the result returns exactly the encoded values -- stated about
+   the model's real entry points encode_msg / decode_msg.
+   NOT PROVED (correspondence + oracle only): parameter trees with structures, fields,
+   dynamic-length types, explicit or bit positions (see DESIGN.md, "partial"). *)
 From Coq Require Import ZArith List Bool.
-From OV Require Import Base.Bytes Base.Wire Generated Model.Str Model.Codec Proofs.BytesProofs Proofs.AtomicProofs Proofs.CodecProps.
+From OV Require Import Base.Bytes Base.Wire Generated Model.Str Model.Codec Proofs.BytesProofs Proofs.AtomicProofs Proofs.CodecProps Proofs.FlatProofs.
 Import ListNotations.
 Open Scope Z_scope.
 
@@ -55,3 +61,37 @@ Theorem C01_nonvacuous :
                              (VInt 2748) 12 BUint None false None; Ok (e_msg s, e_cur s))
   = Ok ([224; 85], 2).
 Proof. exact emplace_example. Qed.
+
+(* message level: any number of sequential standard-length VALUE parameters *)
+Theorem C01_flat_message_roundtrip : forall fl vv,
+  (forall x, In x fl -> fits x (vv (fname x))) -> NoDup (map fname fl) ->
+  exists msg,
+    encode_msg (map mkp fl) None (VDict (fvals vv fl)) = Ok (msg, false) /\
+    decode_msg (map mkp fl) msg = Ok (VDict (fvals vv fl)) /\
+    blen msg = fold_right (fun x a => fbytes x + a) 0 fl.
+Proof. exact flat_roundtrip. Qed.
+Print Assumptions C01_flat_message_roundtrip.
+
+(* the hypothesis is satisfiable: unsigned integers in range, signed integers raw_of accepts *)
+Theorem C01_fits_uint : forall nm bl hl z,
+  0 < bl <= 64 -> 0 <= z < 2 ^ bl -> fits (mkF nm bl BUint None hl BUint) (VInt z).
+Proof. exact fits_uint. Qed.
+Print Assumptions C01_fits_uint.
+
+Theorem C01_fits_int : forall nm bl en hl z raw,
+  0 < bl <= 64 -> (en = None \/ en = Some Enc2C \/ en = Some Enc1C \/ en = Some EncSM) ->
+  raw_of (VInt z) bl BInt en hl = Ok raw -> fits (mkF nm bl BInt en hl BInt) (VInt z).
+Proof. exact fits_int. Qed.
+Print Assumptions C01_fits_int.
+
+Theorem C01_flat_example :
+  let fl := [mkF [112; 49] 8 BUint None true BUint; mkF [112; 50] 12 BUint None false BUint;
+             mkF [112; 51] 64 BUint None true BUint; mkF [112; 52] 8 BInt (Some Enc2C) true BInt] in
+  let vv := fun nm => if bytes_eqb nm [112; 49] then VInt 34 else if bytes_eqb nm [112; 50] then VInt 2748
+                      else if bytes_eqb nm [112; 51] then VInt (2 ^ 64 - 1) else VInt (-2) in
+  encode_msg (map mkp fl) None (VDict (fvals vv fl)) =
+    Ok ([34; 188; 10; 255; 255; 255; 255; 255; 255; 255; 255; 254], false) /\
+  decode_msg (map mkp fl) [34; 188; 10; 255; 255; 255; 255; 255; 255; 255; 255; 254] = Ok (VDict (fvals vv fl)) /\
+  static_bits_msg (map mkp fl) = Some 96.
+Proof. exact flat_example. Qed.
+Print Assumptions C01_flat_example.
